@@ -966,6 +966,21 @@ pub fn frontend(
 
     let helper_names = calculate_live_helpers(&HashSet::new(), &expr_names, &helper_map);
 
+    // Files read on behalf of mod forms nested in this program's expressions
+    // are inputs of this program too.
+    collect_nested_includes_bodyform(&mut includes, our_mod.exp.borrow());
+    for h in our_mod.helpers.iter() {
+        match h {
+            HelperForm::Defun(_, defun) => {
+                collect_nested_includes_bodyform(&mut includes, defun.body.borrow());
+            }
+            HelperForm::Defconstant(defc) => {
+                collect_nested_includes_bodyform(&mut includes, defc.body.borrow());
+            }
+            _ => {}
+        }
+    }
+
     let mut live_helpers = Vec::new();
     for h in our_mod.helpers {
         if !opts.frontend_check_live() || helper_names.contains(h.name()) {
@@ -980,6 +995,35 @@ pub fn frontend(
         helpers: live_helpers,
         exp: our_mod.exp.clone(),
     })
+}
+
+/// Add the include descriptions gathered for mod forms nested in body to
+/// includes.  A nested mod's own list already covers the mods nested in it.
+fn collect_nested_includes_bodyform(includes: &mut Vec<IncludeDesc>, body: &BodyForm) {
+    match body {
+        BodyForm::Let(_, letdata) => {
+            for b in letdata.bindings.iter() {
+                collect_nested_includes_bodyform(includes, b.body.borrow());
+            }
+            collect_nested_includes_bodyform(includes, letdata.body.borrow());
+        }
+        BodyForm::Quoted(_) | BodyForm::Value(_) => {}
+        BodyForm::Call(_, vs, tail) => {
+            for a in vs.iter() {
+                collect_nested_includes_bodyform(includes, a.borrow());
+            }
+            if let Some(t) = tail {
+                collect_nested_includes_bodyform(includes, t.borrow());
+            }
+        }
+        BodyForm::Mod(_, program) => {
+            includes.extend(program.include_forms.iter().cloned());
+        }
+        BodyForm::Lambda(ldata) => {
+            collect_nested_includes_bodyform(includes, ldata.captures.borrow());
+            collect_nested_includes_bodyform(includes, ldata.body.borrow());
+        }
+    }
 }
 
 fn is_quote_op(sexp: Rc<SExp>) -> bool {
